@@ -336,6 +336,11 @@ class Translator:
             names.append(cur['name']); arrow = cur.get('isArrow'); cur = cur['inner'][0]
             if arrow: break
             while cur['kind'] == 'ParenExpr': cur = cur['inner'][0]
+        b = self.strip(cur)
+        if b['kind'] == 'DeclRefExpr' and getattr(st.vars.get(b['referencedDecl']['name']), 't', None) == 'ialias':
+            # `md->f…` with md a local alias of `item->…member` (see DeclStmt): the lvalue `item->…member.f…`
+            av = st.vars[b['referencedDecl']['name']]
+            return av.lean, av.base + tuple(reversed(names))
         try:
             if ctype(cur['type']) != 'sptr:cbor_item_t': return None
         except Unsupported:
@@ -344,6 +349,20 @@ class Translator:
         if pv.t != 'sptr:cbor_item_t' or pv.lean not in st.structs or st.structs[pv.lean].get('__type') != '__item':
             raise Unsupported('item pointer that is not a parameter')
         return pv.lean, tuple(reversed(names))
+
+    def member_addr(self, e, st, fn):
+        """(item key, path) if e is `&item->a.b` / `&(item->a.b)` (parentheses / qualifier-only casts allowed) with item an item parameter and
+        `a.b` a proper prefix of the access path of a modelled field, i.e. a struct-typed member; else None"""
+        while e['kind'] == 'ParenExpr' or (e['kind'] in ('ImplicitCastExpr', 'CStyleCastExpr') and e.get('castKind') == 'NoOp'): e = e['inner'][0]
+        if e['kind'] != 'UnaryOperator' or e.get('opcode') != '&': return None
+        m = e['inner'][0]
+        while m['kind'] == 'ParenExpr': m = m['inner'][0]
+        if m['kind'] != 'MemberExpr': return None
+        ip = self.item_path(m, st, fn)
+        if ip is None: return None
+        key, path = ip
+        if not any(len(q) > len(path) and q[:len(path)] == path for q in self.item_paths): return None
+        return key, path
 
     def item_field(self, key, path, st, write):
         """flat field of an access path + the side condition that the type tag selects the union member accessed"""
@@ -429,6 +448,7 @@ class Translator:
     def conv(self, v, to, st):
         f = v.t
         if f == to: return v
+        if 'ialias' in (f, to): raise Unsupported('use of a member-alias pointer other than p->member')
         L = v.lean
         if to in ('bool', 'i32b') and getattr(v, 'boolsrc', None) is not None:
             return V(v.boolsrc, to)
@@ -643,11 +663,11 @@ class Translator:
         if k == 'ConditionalOperator':
             c = self.cond(e['inner'][0], st, fn)
             n0 = len(st.obl)
-            snap = (dict(st.bufs), len(st.events), {k2: dict(v2) for k2, v2 in st.structs.items()})
+            snap = (dict(st.bufs), len(st.events), {k2: dict(v2) for k2, v2 in st.structs.items()}, dict(st.vars))
             a = self.expr(e['inner'][1], st, fn)
             n1 = len(st.obl)
             b = self.expr(e['inner'][2], st, fn)
-            if st.bufs != snap[0] or len(st.events) != snap[1] or \
+            if st.bufs != snap[0] or len(st.events) != snap[1] or any(st.vars[k2].lean != v2.lean for k2, v2 in snap[3].items()) or \
                     any(st.structs[k2][f].lean != v2[f].lean for k2, v2 in snap[2].items() for f in v2 if f != '__type'):
                 raise Unsupported('conditional expression whose branches have side effects')
             st.obl[n1:] = ['(%s || %s)' % (c, o) for o in st.obl[n1:]]
@@ -666,6 +686,15 @@ class Translator:
         if k == 'UnaryExprOrTypeTraitExpr' and e.get('name') == 'sizeof':
             q = e.get('argType', {}).get('qualType')
             sz = {'size_t': 8, 'uint64_t': 8, 'uint32_t': 4, 'uint16_t': 2, 'uint8_t': 1}.get(q)
+            if sz is None:
+                # `sizeof(T)` / `sizeof expr` for any other scalar type of the model (float = 4, double = 8, the integer types = BITS / 8: the
+                # widths this model assumes throughout); the operand of `sizeof expr` is not evaluated (C11 6.5.3.4p2; no VLAs in the subset)
+                try:
+                    tj = e['argType'] if 'argType' in e else e['inner'][0]['type']
+                    st_ = ctype(tj)
+                except (Unsupported, KeyError, IndexError):
+                    st_ = None
+                sz = self.WIDE.get(st_) or (BITS[st_] // 8 if st_ in BITS else None)
             if sz is None: raise Unsupported('sizeof ' + str(q))
             return lit(sz, 'u64')
         if k == 'CallExpr':
@@ -959,6 +988,8 @@ class Translator:
         destination are different objects by assumption (output buffer vs. item payload: trusted base; overlapping would be UB for memcpy anyway);
         a source inside a store buffer is refused."""
         if len(args) != 3: raise Unsupported('memcpy with %d arguments' % len(args))
+        dn, sn = self.addr_of_scalar(args[0], st), self.addr_of_scalar(args[1], st)
+        if dn is not None or sn is not None: return self.memcpy_scalar(dn, sn, args, st, fn)
         d = self.expr(args[0], st, fn); s_ = self.expr(args[1], st, fn)
         n = self.conv(self.expr(args[2], st, fn), 'u64', st)
         if d.t != 'ptr' or getattr(d, 'item', None) is not None or d.base not in st.bufs:
@@ -972,6 +1003,61 @@ class Translator:
         st.obl.append('decide (%s + %s ≤ %s.size)' % (d.off, nn, cur))
         st.obl.append('decide (%s + %s ≤ %s.size)' % (s_.off, nn, src))
         self.set_bytes(d, '(C.copyBytes %s %s %s %s %s)' % (cur, paren(d.off), src, paren(s_.off), paren(nn)), st, fn)
+        return V('()', 'unit')
+
+    def addr_of_scalar(self, a, st):
+        """name of x if the expression is `&x` — possibly parenthesised and converted to `void*` / a character pointer / its own type with other
+        qualifiers — for x a parameter or local of a fixed-width scalar type whose value the model holds as its object representation
+        (uint16/32/64_t, float, double: WIDE); else None."""
+        casts = []
+        while True:
+            if a['kind'] == 'ParenExpr': a = a['inner'][0]
+            elif a['kind'] in ('ImplicitCastExpr', 'CStyleCastExpr') and a.get('castKind') in ('BitCast', 'NoOp'):
+                casts.append(a['type']); a = a['inner'][0]
+            else: break
+        if a['kind'] != 'UnaryOperator' or a.get('opcode') != '&': return None
+        unq = lambda tj: re.sub(r'\s+', ' ', re.sub(r'\b(const|volatile|restrict)\b', '', tj.get('desugaredQualType', tj.get('qualType', '')))).strip()
+        own = unq(a['type'])
+        if any(unq(c) not in ('void *', 'unsigned char *', 'char *', 'signed char *', own) for c in casts): return None
+        s = a['inner'][0]
+        while s['kind'] == 'ParenExpr': s = s['inner'][0]
+        if s['kind'] != 'DeclRefExpr' or s['referencedDecl'].get('kind') not in ('VarDecl', 'ParmVarDecl'): return None
+        n = s['referencedDecl']['name']
+        v = st.vars.get(n)
+        if v is None or v.t not in self.WIDE: return None
+        try:
+            if ctype(s['type']) != v.t: return None
+        except Unsupported:
+            return None
+        return n
+
+    def memcpy_scalar(self, dn, sn, args, st, fn):
+        """`memcpy(p, &x, n)` / `memcpy(&x, p, n)`, result unused, with x a scalar parameter / local of width w bytes (addr_of_scalar), n a constant
+        equal to w, p a byte pointer.  The object representation of x is, on this (little-endian, checked in generate()) target, the w bytes of its
+        value / IEEE-754 bit pattern in little-endian order — the same fact the typed access `*(T*)p` rests on (wide_read / wide_store).  Hence
+          memcpy(p, &x, w)  =  the bytes p[0..w) become C.storeLE<8w> of the current value of x      (what `*(T*)p = x` stores)
+          memcpy(&x, p, w)  =  x becomes C.loadLE<8w> of the bytes p[0..w)                            (what `x = *(T*)p` loads)
+        with the obligation that p[0..w) lies inside the array p points into (the same text as for the typed access when p is item->data).  x is an
+        object of the callee, so it cannot overlap what p points into.  memcpy has no alignment requirement, so — unlike the typed access — any
+        byte position is accepted; a store still needs a writable target (item->data not aliased to a parameter, or a store buffer: set_bytes).
+        Any other length (partial copies, variable n) and a copy between two scalars are outside the subset."""
+        if dn is not None and sn is not None: raise Unsupported('memcpy between two scalar objects')
+        x = dn if dn is not None else sn
+        t = st.vars[x].t; w = self.WIDE[t]
+        n = self.conv(self.expr(args[2], st, fn), 'u64', st)
+        if lit_val(n) != w: raise Unsupported('memcpy to / from a %d-byte scalar with a length that is not the constant %d' % (w, w))
+        p = self.expr(args[1] if dn is not None else args[0], st, fn)
+        if p.t != 'ptr': raise Unsupported('memcpy between a scalar and something that is not a byte pointer')
+        arr = self.bytes_of(p, st)
+        if getattr(p, 'item', None) is not None and p.off == '0': bound = 'decide (%d ≤ %s.size)' % (w, arr)
+        else: bound = 'decide (%s + %d ≤ %s.size)' % (p.off, w, arr)
+        if sn is not None:
+            st.obl.append(bound)
+            self.set_bytes(p, '(C.storeLE%d %s %s %s)' % (8 * w, arr, paren(p.off), st.vars[x].lean), st, fn)
+        else:
+            if fn.loop_ctx is not None: raise Unsupported('memcpy into a local inside a loop')
+            st.obl.append(bound)
+            nn = fn.gensym(x); st.pending.append((nn, '(C.loadLE%d %s %s)' % (8 * w, arr, paren(p.off)))); st.vars[x] = V(nn, t)
         return V('()', 'unit')
 
     def inline_handle(self, decl, args, st, fn):
@@ -1056,6 +1142,7 @@ class Translator:
             n = t['referencedDecl']['name']
             if n not in st.vars: raise Unsupported('assignment to ' + n)
             ty = st.vars[n].t
+            if ty == 'ialias' or v.t == 'ialias': raise Unsupported('assignment to / of a member-alias pointer')
             if ty == 'ptr' or ty.startswith('wptr:') or ty == 'sptr:cbor_item_t':
                 if v.t != ty: raise Unsupported('pointer assignment %s := %s' % (ty, v.t))
                 st.vars[n] = v; return
@@ -1146,6 +1233,14 @@ class Translator:
                         nn = fn.gensym(d['name'] + '_' + f); st.pending.append((nn, vals[f].lean))
                         fields[f] = V(nn, vals[f].t)
                     st.structs[d['name']] = fields
+                elif t.startswith('sptr:') and t != 'sptr:cbor_item_t' and init and self.member_addr(init[0], st, fn) is not None:
+                    # `struct M* md = &item->…member;` (item: an item parameter, member: a struct-typed (nested) member of cbor_item_t): taking the
+                    # address accesses nothing (no obligation); from here on `md->f` IS the lvalue `item->…member.f` — reads and writes go through
+                    # item_path / item_field exactly like the direct access, with the same union-member side condition at the point of the access.
+                    # The alias has its own value type ('ialias') that only `md->…` (item_path) accepts: it cannot be reassigned (assign), converted,
+                    # compared, dereferenced as a whole, passed to a call, returned or stored (conv raises) — so it is initialised once and never escapes.
+                    key, path = self.member_addr(init[0], st, fn)
+                    st.vars[d['name']] = V(key, 'ialias', base=path)
                 elif t == 'ptr':
                     if not init: raise Unsupported('uninitialised pointer')
                     st.vars[d['name']] = self.expr(init[0], st, fn)
